@@ -268,6 +268,7 @@ let mime_case (toks : string list) : string =
      | M.Inr m -> "M " ^ mime_fields m None
      | M.Inl M.E415 -> "M err415"
      | M.Inl M.EUnsup -> "M UNSUPPORTED-BY-MODEL")
+  | [ "R"; text; _q ] -> "R " ^ text     (* a stored, unparsed text is written as it is *)
   | "S" :: text :: q :: ps ->
     (* parse, then setQuality / setParam, then the text the value writes is parsed again *)
     let ps = List.map (fun x -> match String.split_on_char '=' x with [ k; v ] -> (bytes_of_hex k, bytes_of_hex v) | _ -> ([], [])) ps in
@@ -609,7 +610,7 @@ let lifecycle_case (toks : string list) : string =
    model decides what each event does.  Times in ms. *)
 let client_case (toks : string list) : string =
   match toks with
-  | [ "C"; _threads; _timeout ] -> "C refused=R live=F"   (* outside the model: a connection that is never established carries no request *)
+  | [ "C"; _threads; _timeout ] | [ "C"; _threads; _timeout; _ ] -> "C refused=R live=F"   (* outside the model: a connection that is never established carries no request *)
   | [ "L"; _threads; _rounds ] ->
     (* the adversarial interleaving of every round (B finds the connection busy, A completes and finds the queue empty, B is
        queued), then B's second look; C15_no_request_left_queued_beside_an_idle_connection covers all the others *)
@@ -660,7 +661,7 @@ let client_case (toks : string list) : string =
              | "c" -> push (now + 15) (`Resp (c, gen.(c), false))
              | "e" -> push (now + 250) (`Resp (c, gen.(c), false))
              | "g" -> push (now + timeout * 7 / 10) (`Resp (c, gen.(c), false))
-             | "x" -> push (now + 1) (`Resp (c, gen.(c), true))
+             | "x" | "z" -> push (now + 1) (`Resp (c, gen.(c), true))
              | "X" -> push (now + 1) (`Close (c, gen.(c)))
              (* answered; then bytes nobody asked for arrive (or the server closes): the client gives the connection up *)
              | "U" | "P" | "S" | "W" -> push (now + 1) (`Resp (c, gen.(c), false)); push (now + 61) (`Close (c, gen.(c)))
